@@ -131,6 +131,11 @@ let with_stack (stack : string) (dl : deadline) (orc : oracles) (repair : bool) 
       | Ok (_, w) -> fin w
       | Panic -> Panic
       | OutOfFuel -> OutOfFuel)
+  | "replace_nofinish" -> (
+      match r.run (replace_world (no_finish pw) !dbg) (rstate0, plain0) with
+      | Ok (_, w) -> fin w
+      | Panic -> Panic
+      | OutOfFuel -> OutOfFuel)
   | "replace_norep" -> (
       match r.run (replace_world (default_replace pw) !dbg) (rstate0, plain0) with
       | Ok (_, w) -> fin w
